@@ -593,8 +593,18 @@ Qed.
 Lemma savers_have_rows : forall s, row_of s <> None.
 Proof. destruct s; vm_compute; discriminate. Qed.
 
-Lemma save_sites_known :
-  save_result_sites = ["flows/actions/base.go:baseAction.saveResult:SaveResult";
-                       "flows/routers/base.go:baseRouter.routeToCategory:SaveResult";
-                       "flows/runs/run.go:run.SaveResult:Save"]%string.
-Proof. vm_compute. reflexivity. Qed.
+(* "the only doors": every call of Run.SaveResult / Results.Save under flows/ is in a method of baseAction
+   (flows/actions/base.go), of baseRouter (flows/routers/base.go), or is run.SaveResult itself — the two helpers the
+   rows of the table are computed from (translator: reachability of saveResult / of SaveResult from Route and
+   RouteTimeout), not some third place the table would not see *)
+Definition site_known (s : string) : bool :=
+  prefix "flows/actions/base.go:baseAction." s
+  || prefix "flows/routers/base.go:baseRouter." s
+  || String.eqb s "flows/runs/run.go:run.SaveResult:Save".
+
+Lemma save_sites_known : save_result_sites <> [] /\ forall s, In s save_result_sites -> site_known s = true.
+Proof.
+  split; [vm_compute; discriminate|].
+  assert (H : forallb site_known save_result_sites = true) by (vm_compute; reflexivity).
+  intros s Hs. rewrite forallb_forall in H. apply H. exact Hs.
+Qed.
